@@ -2,7 +2,8 @@
 from props.common_prog import judge_prog
 
 THEOREM_MODULES = ["Hcl.Theorems.C10"]
-THEOREMS = {"Hcl.Theorems.C10": ["C10_accepted_acyclic", "C10_cycle_iff", "C10_sorter_spec", "C10_never_panics", "C10_reported_loop_is_real"]}
+THEOREMS = {"Hcl.Theorems.C10": ["C10_accepted_acyclic", "C10_cycle_iff", "C10_sorter_spec", "C10_never_panics", "C10_reported_loop_is_real",
+                                 "C10_reported_loop_real", "Program_new_nl", "resolveConstants_nl", "assignmentsToActions_nl", "check_nl"]}
 
 RULE = ("S-GRAPH: every digraph (self loops allowed) on 0..4 labelled nodes in quick (0..4 plus all 2^25 on 5 nodes "
         "in thorough) and random graphs of 5-40 nodes near the cyclic threshold are sorted by the real "
